@@ -3,6 +3,7 @@ package hx
 import (
 	"bufio"
 	"bytes"
+	"context"
 	"crypto/sha1"
 	"encoding/json"
 	"flag"
@@ -167,11 +168,14 @@ func Main() {
 	var wg sync.WaitGroup
 	var mu sync.Mutex
 	failed := ""
+	ctx, cancel := context.WithCancel(context.Background())
+	defer cancel()
 	for i := 0; i < n; i++ {
 		wg.Add(1)
 		go func(i int) {
 			defer wg.Done()
-			cmd := exec.Command(self, "-worker", strconv.Itoa(i), "-n", strconv.Itoa(n), "-tier", *tier, "-deadline", strconv.FormatInt(dl, 10), id)
+			// if one worker fails the others are stopped at once (they may be waiting for it)
+			cmd := exec.CommandContext(ctx, self, "-worker", strconv.Itoa(i), "-n", strconv.Itoa(n), "-tier", *tier, "-deadline", strconv.FormatInt(dl, 10), id)
 			cmd.Env = append(os.Environ(), "GOMAXPROCS=2")
 			var out, errb bytes.Buffer
 			cmd.Stdout = &out
@@ -180,8 +184,11 @@ func Main() {
 			r := &Result{}
 			if err != nil || json.Unmarshal(lastJSON(out.Bytes()), r) != nil {
 				mu.Lock()
-				failed += fmt.Sprintf("worker %d: %v\nstderr:\n%s\nstdout tail:\n%s\n", i, err, tail(errb.String(), 4000), tail(out.String(), 1000))
+				if ctx.Err() == nil {
+					failed += fmt.Sprintf("worker %d: %v\nstderr:\n%s\nstdout tail:\n%s\n", i, err, tail(errb.String(), 4000), tail(out.String(), 1000))
+				}
 				mu.Unlock()
+				cancel()
 				return
 			}
 			results[i] = r
